@@ -37,6 +37,7 @@ type shape struct {
 	X, I, M bool
 	L, T, K bool
 	Flex    bool // vp9 flexible mode
+	Parts   bool // vp8: one partition per packet (S=1 and the partition index on every packet, RFC 7741)
 }
 
 var shapes = []shape{
@@ -46,6 +47,7 @@ var shapes = []shape{
 	{Name: "vp8-I15-T", Codec: "vp8", X: true, I: true, M: true, T: true},
 	{Name: "vp8-I15-LTK", Codec: "vp8", X: true, I: true, M: true, L: true, T: true, K: true},
 	{Name: "vp8-I7-L", Codec: "vp8", X: true, I: true, L: true},
+	{Name: "vp8-I15-T-partitions", Codec: "vp8", X: true, I: true, M: true, T: true, Parts: true},
 	{Name: "vp9-nonflex", Codec: "vp9", I: true, M: true, L: true},
 	{Name: "vp9-flex", Codec: "vp9", I: true, L: true, Flex: true},
 	{Name: "opus", Codec: "opus"},
@@ -62,6 +64,10 @@ type config struct {
 	// vp9: a switch to the other spatial layer is pending when the stream
 	// starts (it completes at the first packet of the keyframe)
 	Pending bool `json:"pending"`
+	// vp9: the receiver joined mid-stream: no keyframe in the history, the
+	// upper spatial layer of every picture is predicted from the lower one
+	// only (P=0 on its packets), so a pending switch stays pending
+	Mid bool `json:"mid"`
 }
 
 func (c config) String() string {
@@ -69,12 +75,18 @@ func (c config) String() string {
 	if c.Pending {
 		s += "-switch-pending"
 	}
+	if c.Mid {
+		s += "-midstream"
+	}
 	return s
 }
 
 type op struct {
 	N   int `json:"n"`   // packets in the frame
 	Tid int `json:"tid"` // temporal layer of the frame
+	// bandwidth feedback raises the wanted temporal layer to 1 between the
+	// first and the second packet of this frame (what adjustLayer does)
+	Raise bool `json:"raise,omitempty"`
 }
 
 type world struct {
@@ -87,6 +99,7 @@ type world struct {
 	lastOut  int // source index of the last forwarded frame, -1
 	outcome  string
 	hist     []op
+	raised   bool
 	// the last two forwarded packets: source buffer and the payload that was
 	// sent (a receiver may ask for them again: gotNACK re-runs Write on the
 	// cached source packet)
@@ -132,12 +145,15 @@ func (w *world) Ops() []seqx.Op {
 	// macro: 16384 x (one forwarded 1-packet frame, one withheld 4-packet
 	// frame): exactly 65536 packets withheld, so the seqno shift wraps to 0
 	// while the picture-id shift does not
-	if canHi && w.sh.Codec == "vp8" && w.sh.M && w.frames == 1 && w.cfg.CSRC == 0 && !w.cfg.Ext && (w.cfg.PidStart == 0 || !core.Quick()) {
+	if canHi && w.sh.Codec == "vp8" && w.sh.M && !w.sh.Parts && w.frames == 1 && w.cfg.CSRC == 0 && !w.cfg.Ext && (w.cfg.PidStart == 0 || !core.Quick()) {
 		ops = append(ops, op{N: -16384, Tid: 1})
 	}
 	// a retransmission of the last / last but one forwarded packet
 	for k := range w.sent {
 		ops = append(ops, op{N: 0, Tid: k})
+	}
+	if w.sh.Parts && w.frames > 0 && !w.raised {
+		ops = append(ops, op{N: 2, Tid: 1, Raise: true})
 	}
 	for n := 1; n <= maxN; n++ {
 		ops = append(ops, op{N: n, Tid: 0})
@@ -181,6 +197,9 @@ func (w *world) frame(o op) []srcPkt {
 		for i := 0; i < o.N; i++ {
 			p := media.VP8{Hdr: hdr(i == o.N-1, 96), X: w.sh.X, I: w.sh.I, M: w.sh.M, L: w.sh.L, T: w.sh.T, K: w.sh.K,
 				PictureID: pid, TL0: uint8(w.frames), TID: uint8(o.Tid), KeyIdx: 3, S: i == 0, Keyframe: w.frames == 0 && i == 0, Body: body(i)}
+			if w.sh.Parts {
+				p.S, p.PartID, p.Y = true, uint8(i), o.Tid > 0
+			}
 			pk = append(pk, srcPkt{buf: p.Bytes(), end: i == o.N-1, descr: fmt.Sprintf("frame %d packet %d", w.frames, i)})
 		}
 	case "vp9":
@@ -190,9 +209,9 @@ func (w *world) frame(o op) []srcPkt {
 			for i := 0; i < o.N; i++ {
 				last := sid == 1 && i == o.N-1
 				p := media.VP9{Hdr: hdr(last, 98), I: w.sh.I, M: w.sh.M, L: true, F: w.sh.Flex,
-					P: w.frames > 0, PDiff: []uint8{1},
+					P: (w.frames > 0 || w.cfg.Mid) && !(w.cfg.Mid && sid == 1), PDiff: []uint8{1},
 					B: i == 0, E: i == o.N-1, PictureID: pid, TID: uint8(o.Tid), SID: uint8(sid), D: sid == 1,
-					TL0: uint8(w.frames), Keyframe: w.frames == 0, Body: body(i + 10*sid)}
+					TL0: uint8(w.frames), Keyframe: w.frames == 0 && !w.cfg.Mid, Body: body(i + 10*sid)}
 				pk = append(pk, srcPkt{buf: p.Bytes(), sid: sid, end: i == o.N-1, descr: fmt.Sprintf("frame %d sid %d packet %d", w.frames, sid, i)})
 			}
 		}
@@ -256,7 +275,17 @@ func (w *world) Apply(x seqx.Op) *core.Violation {
 	codec := codecOf(w.sh).MimeType
 	forwardedAny, withheldAny := false, false
 	var framePid = -1
-	for _, sp := range pkts {
+	// picture-level marker rule: a marker the server set must sit on the
+	// last packet of the picture that this receiver is sent
+	forcedAt, lastFwd := -1, -1
+	var forcedDescr string
+	for pi, sp := range pkts {
+		if o.Raise && pi == 1 {
+			l := w.w.Down.Layer()
+			l.WantedTid = 1
+			w.w.Down.SetLayer(l)
+			w.raised = true
+		}
 		orig := append([]byte(nil), sp.buf...)
 		w.w.Rec.Take()
 		_, err := w.w.Down.Write(sp.buf)
@@ -284,7 +313,11 @@ func (w *world) Apply(x seqx.Op) *core.Violation {
 				return viol("layer-moved/"+w.sh.Name, sp.descr+": the pinned spatial layer changed")
 			}
 		}
-		above := o.Tid > 0 || sp.sid > curSid
+		curTid := 0
+		if w.raised {
+			curTid = int(w.w.Down.Layer().Tid)
+		}
+		above := o.Tid > curTid || sp.sid > curSid
 		if len(out) == 0 {
 			if !above {
 				return viol("not-forwarded/"+w.sh.Name, sp.descr+": in-order packet at or below the selected layers was not forwarded")
@@ -293,6 +326,10 @@ func (w *world) Apply(x seqx.Op) *core.Violation {
 			continue
 		}
 		forwardedAny = true
+		lastFwd = pi
+		if out[0].Header.Marker && !in.Marker && forcedAt < 0 {
+			forcedAt, forcedDescr = pi, sp.descr
+		}
 		if above {
 			// C04's business; here it only means the frame is not withheld
 		}
@@ -369,6 +406,9 @@ func (w *world) Apply(x seqx.Op) *core.Violation {
 			panic("galene cannot parse the harness packet: " + err.Error())
 		}
 	}
+	if forcedAt >= 0 && forcedAt != lastFwd {
+		return viol("marker-set-illegally/"+w.sh.Name, fmt.Sprintf("%s: the server set the marker on this packet, and then forwarded %d more packet(s) of the same picture (up to %s): the marker is not on the last packet of a frame of the highest forwarded spatial layer", forcedDescr, lastFwd-forcedAt, pkts[lastFwd].descr))
+	}
 	if withheldAny && !forwardedAny {
 		w.withheld++
 	}
@@ -396,6 +436,9 @@ func (w *world) Canon() string {
 	var b strings.Builder
 	b.WriteString(w.w.Down.MapState())
 	fmt.Fprintf(&b, "#%d/%d/%d/%d", w.frames, w.withheld, w.seq, len(w.sent))
+	if w.raised {
+		fmt.Fprintf(&b, "#L%v", w.w.Down.Layer())
+	}
 	return b.String()
 }
 
@@ -424,6 +467,7 @@ func configs() []config {
 						cs = append(cs, config{Shape: si, CSRC: csrc, Ext: ext, PidStart: 126, Seq: seqs[0], Sid: sid})
 						if csrc == 0 || !core.Quick() {
 							cs = append(cs, config{Shape: si, CSRC: csrc, Ext: ext, PidStart: 126, Seq: seqs[0], Sid: sid, Pending: true})
+							cs = append(cs, config{Shape: si, CSRC: csrc, Ext: ext, PidStart: 126, Seq: seqs[0], Sid: sid, Pending: true, Mid: true})
 						}
 					}
 				default:
